@@ -22,7 +22,7 @@ SigNorm(S) == { Q(s[1], s[2]) : s \in S }
 SigQn == SigNorm(SigQ)
 SigAlln == SigNorm(SigAll)
 SigElse == { Q(12, 10), Q(21, 10), Q(31, 10) }
-SFsAll == { <<1, 100>>, <<1, 10>>, <<3, 10>>, <<1, 1>> }
+SFsAll == { <<0, 1>>, <<1, 100>>, <<1, 10>>, <<3, 10>>, <<1, 1>> }    \* 0: every accepted window peaks at the same frequency
 \* a coarse grid (ratio 5 between samples): intervals (f0/4, f0) and (f0, 4 f0) contain no sample
 Freq5 == <<2, 10, 50, 250, 1250>>
 ShapesC == ShapeSet({2, 3, 4}, {2, 3, 6})
